@@ -252,7 +252,7 @@ def region_of(regions, a):
         if b <= a < b + z: return (b, z)
     return None
 
-def vcase_coq(c, out):
+def vcase_coq(c, out, with_dirty=True):
     regs = c['regions']
     ranges = []
     for a, l, k in c['descs']:
@@ -268,7 +268,7 @@ def vcase_coq(c, out):
         '; '.join(op_coq(o) for o in c['ops']), exp_init,
         '; '.join(obs_coq(o) for o in out['obs']),
         win_coq(ws),
-        '; '.join(str(p) for p in out['dirty']), '; '.join(str(p) for p in universe))
+        '; '.join(str(p) for p in out['dirty']) if with_dirty else '', '; '.join(str(p) for p in universe) if with_dirty else '')
 
 COQ_HEADER = ('From Coq Require Import List String NArith Bool.\n'
               'From FB Require Import Lib.Hex Gen.BytesDelegation Model.Transport.\n'
@@ -598,3 +598,76 @@ def eval_bcase(c, out):
                           c['method'], out['res'][:2], '' if r else ' (differs)', exp[:2], 'as expected' if m else 'differ from expected'),
                       'input': case_text_b(c), 'sig': {'method': c['method']}})
     return probs, orc
+
+# ------------------------------------------------------------------ whole requests through Server::handle_message (C17)
+import struct
+def _inhdr(length, opcode, unique, nodeid=1): return struct.pack('<IIQQIIII', length, opcode, unique, nodeid, 1000, 1000, 77, 0)
+def _readin(size, offset): return struct.pack('<QQIIQII', 5, offset, size, 0, 0, 0, 0)
+
+def gen_scase(rng):
+    """a FUSE request with a payload-carrying reply, laid out over a random descriptor chain"""
+    kind = rng.choice(['read', 'read', 'read', 'readdir', 'getxattr', 'listxattr', 'readlink', 'getattr', 'unknown'])
+    plen = rng.choice([0, 1, 15, 16, 100, 4079, 4080, 4081, 4096, 5000, 9000])
+    size = rng.choice([0, 1, 16, 100, 4080, 4096, 4097, 6000, 9000])
+    off = rng.choice([0, 0, 1, 100, plen]) if kind == 'read' else 0
+    if kind in ('read', 'readdir'): body = _readin(size, off); opc = 15 if kind == 'read' else 28
+    elif kind == 'getxattr': body = struct.pack('<II', size, 0) + b'user.verif\0'; opc = 22
+    elif kind == 'listxattr': body = struct.pack('<II', size, 0); opc = 23
+    elif kind == 'readlink': body = b''; opc = 5; plen = min(plen, 4000)
+    elif kind == 'getattr': body = struct.pack('<IIQ', 0, 0, 0); opc = 3
+    else: body = b''; opc = 99
+    req = _inhdr(40 + len(body), opc, rng.randrange(1, 1 << 40)) + body
+    regions = rng.choice(LAYOUTS)
+    # readable part: the request cut into 1..3 pieces; writable part: 1..5 segments as in gen_chain
+    cuts = sorted(rng.sample(range(1, len(req)), rng.choice([0, 1, 2]))) if len(req) > 2 else []
+    pieces = [b - a for a, b in zip([0] + cuts, cuts + [len(req)])]
+    if rng.random() < 0.2: pieces.append(rng.choice([0, 7]))          # slack / empty readable descriptor
+    descs = []; cursor = {b: b + rng.choice([0, 1, 5, 4090, 4095]) for b, z in regions}
+    def place(ln, k):
+        order = list(regions); rng.shuffle(order)
+        for b, z in order:
+            a = cursor[b]
+            if rng.random() < 0.3:
+                want = rng.choice([0, 1, 4095, 4094, (-ln) % PS, (-ln + 1) % PS, (-16) % PS, (-15) % PS])
+                a += (want - a) % PS
+            if a + ln <= b + z and a < b + z:
+                descs.append((a, ln, k)); cursor[b] = a + ln + rng.choice([0, 0, 1, 3, 17, 40]); return True
+        return False
+    for ln in pieces: place(ln, 'r')
+    nbig = 0
+    for _ in range(rng.choice([1, 2, 2, 3, 4, 5])):
+        if rng.random() < 0.35 and nbig < 2: ln = rng.choice(BIG + [8000]); nbig += 1
+        else: ln = rng.choice([0, 1, 8, 15, 16, 17, 64, 100, 255, 1000])
+        place(ln, 'w')
+    return {'seed': rng.randrange(256), 'regions': regions, 'descs': descs, 'req': req, 'payload': rdata(rng, plen), 'kind': kind, 'size': size}
+
+def case_text_s(c):
+    regs = [QREGION] + list(c['regions'])
+    return 'seed=%d regions=%s queue=0 descs=%s req=%s payload=%s' % (
+        c['seed'], ','.join('%d:%d' % r for r in regs), ','.join('%d:%d:%s' % d for d in c['descs']),
+        c['req'].hex(), bytes(c['payload']).hex() or '-')
+
+def eval_scase(c, out):
+    """-> (problems, shape).  W = writable addresses in order; a completed reply of L bytes occupies W[:L]"""
+    probs = []
+    if out.get('harness_panic') or out['res'][0] == 'panic':
+        return [{'what': 'server panicked while handling a %s request' % c['kind'], 'sig': {'kind': 'panic'}}], None
+    W = [a + i for a, l, k in c['descs'] if k == 'w' for i in range(l)]
+    changed = set()
+    for a, hx in out['mem']:
+        changed.update(range(a, a + len(hx) // 2))
+    dirty = set(out['dirty'])
+    un = set(a // PS for a in changed) - dirty
+    if un: probs.append({'what': 'whole request (%s): modified guest pages not marked dirty: %s' % (c['kind'], sorted(un)[:6]), 'sig': {'kind': 'unmarked'}})
+    L = None
+    if out['res'][0] == 'ok' and len(out['head']) >= 8:
+        L = struct.unpack('<I', bytes.fromhex(out['head'])[:4])[0]
+        if L > len(W): L = None
+    if L is not None:
+        want = set(a // PS for a in W[:L])
+        if not want <= dirty: probs.append({'what': 'whole request (%s): pages of the %d-byte reply not marked: %s' % (c['kind'], L, sorted(want - dirty)[:6]), 'sig': {'kind': 'unmarked'}})
+        if not dirty <= (want | set(a // PS for a in changed)): probs.append({'what': 'whole request (%s): pages marked although neither the %d-byte reply reaches them nor any byte in them changed: %s' % (c['kind'], L, sorted(dirty - want)[:6]), 'sig': {'kind': 'overmarked'}})
+        if not changed <= set(W): probs.append({'what': 'whole request (%s): guest memory modified outside the writable descriptors' % c['kind'], 'sig': {'kind': 'stray-write'}})
+    else:
+        if not dirty <= set(a // PS for a in W): probs.append({'what': 'whole request (%s, no reply): pages outside the writable descriptors marked' % c['kind'], 'sig': {'kind': 'overmarked'}})
+    return probs, (c['kind'], L is not None, len(dirty), len([d for d in c['descs'] if d[2] == 'w']))
